@@ -212,6 +212,55 @@ def rule_parsefresh(P) -> RuleResult:
 
 
 # ----------------------------------------------------------------------
+# R-PARSELOC (C05): the location a ParseError carries is an offset into the statement text
+
+def rule_parseloc(P) -> RuleResult:
+    """parse() on terms with the generated parser failing: the ParseInfo handed to ParseError is built over the tokenizer of the
+    failure with pos = the offset of the failure in the whole text (exc.pos) and endpos = pos + 1 - the coordinates every consumer
+    (Node.text, the shell's error marker) slices the statement with; a column within the line is an offset only on line one."""
+    from ..symex import Sym as _S, T as _T, Engine as _E, Raise as _R, show as _sh, simplify as _simp
+    res = RuleResult('R-PARSELOC')
+    pm = P.module('beanquery.parser')
+    pf = pm.toplevel_funcs.get('parse')
+    if not pf:
+        raise AnalysisError('anchor vanished: beanquery.parser.parse')
+    TEXT = _S('TEXT')
+    infos = []
+
+    def on_call(fn, fv, rc, args, kw, ex, node):
+        last = str(fn).split('.')[-1]
+        if last == 'parse' and rc is not None:
+            raise _R('tatsu.exceptions.ParseError', ())
+        if last == 'ParseInfo':
+            infos.append((tuple(args), tuple(kw)))
+            return _T('new', ('ParseInfo', tuple(args), tuple(kw)))
+        return NotImplemented
+    n = 0
+    for p in _E(P, on_call=on_call, max_depth=2).paths(pf[-1], {pf[-1].params[0]: TEXT}):
+        n += 1
+        if p.outcome != 'raise' or str(p.value[0]).split('.')[-1] != 'ParseError':
+            res.fail(pf[-1].fq, 'parseloc:class', f'a syntax error must leave parse() as ParseError; the path ends with {p.outcome} '
+                     f'`{_sh(p.value)[:60] if p.outcome != "raise" else p.value[0]}`', loc(pf[-1]))
+    if n == 0 or not infos:
+        raise AnalysisError('beanquery.parser.parse: the construction of the error location (ParseInfo) was not found on terms')
+    EXC = _T('exc', ('tatsu.exceptions.ParseError',))
+    pos = _T('attr', (EXC, 'pos'))
+    for args, kw in infos:
+        fields = dict(zip(('tokenizer', 'rule', 'pos', 'endpos', 'line', 'endline'), args))
+        fields.update(dict(kw))
+        got_pos, got_end = fields.get('pos'), fields.get('endpos')
+        want_end = _simp(_T('bin', ('+', pos, 1)))
+        if got_pos != pos or (_simp(got_end) if isinstance(got_end, _T) else got_end) != want_end \
+                or fields.get('tokenizer') != _T('attr', (EXC, 'tokenizer')):
+            res.fail(pf[-1].fq, 'parseloc:offset', f'the location of a ParseError must be the offset of the failure in the statement text '
+                     f'(pos = exc.pos, endpos = exc.pos + 1, over exc.tokenizer); it is built with pos = `{_sh(got_pos)[:50]}`, endpos = '
+                     f'`{_sh(got_end)[:50]}`: Node.text and the error marker slice the whole text with these numbers', loc(pf[-1]))
+        else:
+            res.ok({'function': pf[-1].fq, 'pos': 'exc.pos', 'endpos': 'exc.pos + 1'})
+    return res
+
+
+# ----------------------------------------------------------------------
 # R-ROWPURE (C01, C02): evaluating a node on a row leaves no trace on the node
 
 # state an evaluator may keep across rows, confirmed by reading: (class, attribute) -> why it is not row-dependent
